@@ -145,6 +145,26 @@ class C09(Property):
                                 probes(s, 3, at)
                         s.add("S.1", "S.2")
                         out.append(s.line())
+        # replayed handshake pings from UNKNOWN addresses (each leaves a throw-away handshake entry for 120 s): with a peer timeout
+        # below that, and with repeated replays, the healthy connection must see its keep-alives and stay
+        for pt in ([60, 100, 300] if thorough else [100]):
+            for every in ([50, 100] if thorough else [100]):
+                s = nu.Scenario()
+                for i in (1, 2):
+                    s.node(i, mode="tun-router", pt=pt, claims=["%s/24" % bytes([10, 0, i, 0]).hex()])
+                s.add("C.1.2", "A")
+                s.tick(2)
+                src = OUTSIDER
+                for at in range(1, 2 * pt + 140):
+                    if at % every == 1:
+                        s.add("J.0.1.%d" % src, "J.0.2.%d" % src)
+                        src += 1
+                    s.t += 1
+                    s.add("T.%d" % s.t, "H.1", "H.2", "S.1", "S.2", "A")
+                    if at % 60 == 0:
+                        probes(s, 2, at)
+                s.add("S.1", "S.2")
+                out.append(s.line())
         out += forged_lines(rng, thorough)
         out += every_position_lines(rng, thorough)
         return out
